@@ -15,6 +15,7 @@ RULE = ("Line/Quadratic/Cubic segments of every class and paths of 2-5 of them a
         "attained at t, no sampled/refined point closer than dmin or farther than dmax (1e-7 of the size). Non-trivial = the "
         "extreme is attained strictly inside (0,1) of a curved segment; distinct by case hash.")
 ASSUMPTIONS = ["point() is the reference curve (C03)", "tolerance 1e-7*size + 1e-9*d (the critical points come from np.roots)"]
+RULE += ' Also: Segments that are reversed copies of queried ones or were reassigned after queries; exact 2^-10 / 2^-20 copies; loop segments in paths.'   # added after the seeded-change rounds (DESIGN.md section 10)
 CONFIGS = ['scipy']
 BUDGET = {'quick': 16000, 'thorough': 300000}
 REQUIRED = ['path_with_loop_segment', 'size_below_1e-4', 'reversed_after_queries', 'reassigned_after_queries', 'q:far', 'q:near', 'q:on', 'q:curvature_centre', 'q:beyond_end', 'q:random', 'kind:L', 'kind:Q', 'kind:C', 'path', 'interior_min',
